@@ -231,7 +231,7 @@ func (u *Unit) evalBuiltin(st *State, call *ast.CallExpr, name string) []Value {
 func (u *Unit) allocBlock(st *State, elem types.Type, n, c *Term) Value {
 	b := u.brk(st, elem)
 	h := u.heap(st, elem)
-	nh := u.ctx.Fresh("H_"+elemKey(elem), h.Sort)
+	nh := u.ctx.Fresh(u.symName("H:"+elemKey(elem)), h.Sort)
 	q := boundVar("q?" + fmt.Sprint(u.nextBound()))
 	zero := u.zeroOf(elem, true).Term
 	st.Assume(Forall([]*Term{q}, Ite(And(Le(b, q), Lt(q, Add(b, c))), Eq(Select(nh, q), zero), Eq(Select(nh, q), Select(h, q)))))
@@ -259,7 +259,7 @@ func (u *Unit) appendSlice(st *State, s Value, t *Value, v *Value) Value {
 	ncap := u.ctx.Fresh("growcap", SInt)
 	st.Assume(And(Ge(ncap, newLen), Le(ncap, IntLit(maxSliceLen))))
 	u.failure(st, "append-size", Gt(newLen, IntLit(maxSliceLen)))
-	nh := u.ctx.Fresh("H_"+elemKey(elem), h.Sort)
+	nh := u.ctx.Fresh(u.symName("H:"+elemKey(elem)), h.Sort)
 	q := boundVar("q?" + fmt.Sprint(u.nextBound()))
 	srcAt := func(k *Term) *Term { // k-th appended element
 		if t != nil {
